@@ -13,6 +13,7 @@ the (U, V, P, Q) order of the table methods' results.
 from __future__ import annotations
 
 import ast
+import re
 from fractions import Fraction
 from math import factorial
 
@@ -29,6 +30,7 @@ SSM = "pyyeti/ssmodel.py"
 # not copied from the repository
 THETA = {3: Fraction("1.495585217958292e-2"), 5: Fraction("2.539398330063230e-1"),
          7: Fraction("9.504178996162932e-1"), 9: Fraction("2.097847961257068"), 13: Fraction("4.25")}
+HELPER_ATTR = re.compile(r"_?A([2-9]|1[0-9])|ident|structure|use_exact_onenorm|d(4|6|8|10)_(loose|tight)|pade(3|5|7|9|13)(_i|_scaled|_scaled_i)?")
 EPS = Fraction(1, 2 ** 60)          # probes sit at theta (1 -+ 2^-60): a 16-digit literal that differs from theta in its last digit is seen
 DNAMES = ("d4_loose", "d6_loose", "d8_loose", "d10_loose", "d4_tight", "d6_tight", "d8_tight", "d10_tight")
 
@@ -180,6 +182,9 @@ def scalar_hook(extra=None, d=None, ell=None):
             if r is not NotImplemented:
                 return r
         n = len(pos)
+        if name == "getattr" and n == 2 and isinstance(pos[0], F.Rat) and isinstance(pos[1], str) and HELPER_ATTR.fullmatch(pos[1]):
+            # an array (dense, sparse, np.matrix) where the Pade helper object is expected: no array type has these attributes
+            return I.Crash(f"AttributeError: an array has no attribute '{pos[1]}'")
         if name in ("mf._smart_matrix_product", "np.dot", "np.matmul") and n >= 2:
             return _mul(it, pos[0], pos[1])
         if name == ".dot" and n == 2:
@@ -315,8 +320,9 @@ def verdict(ctx, ok, title, where, detail=None, values=()):
 
 def _aborted(ctx, title, where, ret):
     """the evaluated path ends in an exception (every test on it was decided): report it; True if so"""
-    if I.is_crash(ret):
-        ctx.fail(title, where, {"evaluation raises": ret.why})
+    cr = _find_crash(ret)
+    if cr is not None:
+        ctx.fail(title, where, {"evaluation raises": cr.why})
         return True
     if isinstance(ret, Raised):
         ctx.fail(title, where, {"evaluation ends in the `raise` at line": getattr(ret.node, "lineno", None)})
